@@ -290,6 +290,6 @@ def check(model, rep, tier):
   # ---------------------------------------------------------------- dependencies
   rep.depends('C05', None,
               'liveness is propagated backwards along the edges of this graph')
-  rep.depends('C08', ['ACT-TRAV', 'ACT-ORDER', 'FINALIZE'],
+  rep.depends('C08', None,
               'the gen set of a statement is the read set of the activity '
               'analysis: a read it does not visit is not live before it')
